@@ -3,8 +3,8 @@
 cd /verif
 for ID in "$@"; do
   for N in 1 2 3; do
-    [ -f /tmp/seed-$ID/SEEDED/$N/patch.diff ] || continue
-    echo "######## $ID-$N"
+    [ -f ${SEED_SRC_PREFIX:-/tmp/seed-}$ID/SEEDED/$N/patch.diff ] || continue
+    echo "######## $ID-${SEED_TAG:-}$N"
     ./seedcheck.sh $ID $N
   done
 done
